@@ -5,6 +5,34 @@
 #![allow(dead_code, unused_imports)]
 use super::*;
 
+// ---- connlevel helpers begin
+/// What SETTINGS change in the streams layer, as far as it is observable without a stream:
+/// (max_send_streams, max_recv_streams, recv initial window, send initial window,
+///  extended CONNECT allowed on the send side, number of streams in the store)
+pub(crate) type StreamsSettingsSnap = (usize, usize, u32, u32, bool, bool);
+
+impl<B, P> Streams<B, P>
+where
+    P: Peer,
+{
+    pub(crate) fn vk_settings_snap(&self) -> StreamsSettingsSnap {
+        let me = match self.inner.lock() {
+            Ok(g) => g,
+            Err(e) => e.into_inner(),
+        };
+        (
+            me.counts.max_send_streams(),
+            me.counts.max_recv_streams(),
+            me.actions.recv.init_window_sz(),
+            me.actions.send.init_window_sz(),
+            me.actions.send.is_extended_connect_protocol_enabled(),
+            me.counts.has_streams(),
+        )
+    }
+}
+// ---- connlevel helpers end
+
+
 pub(crate) fn mk_inner(counts: Counts, recv: Recv, send: Send) -> Inner {
     Inner {
         counts,
